@@ -231,7 +231,7 @@ def small_pool_scenarios(rng, tier):
                         pre = _pool_prefix(rng, nalloc, nfree)
                         if rng.random() < 0.3:
                             pre += ["an"] * rng.randint(1, 3)
-                        for w in range(5):
+                        for w in range(7):
                             out.append((dict(h, tag="foreign%d" % w), pre + ["bad foreign %d" % w]))
                         out.append((dict(h, tag="off"), pre + ["bad off %d %d" % (rng.randint(0, 20), rng.randint(0, 40))]))
         # pools that have grown to several blocks
